@@ -275,27 +275,68 @@ def rule_r5(ctx):
     if ok:
         cfg = CFG(g.node)
         ok = cfg.dominates(cfg.node_of(al[0])[0], cfg.nodes_containing(ctor[0])[0])
-        size = norm(ctor[0].args[2])
-        ok = ok and size in ("tensor_size", "tensor.nbytes") and norm(al[0].value.args[1]) in ("tensor_size", "tensor.nbytes")
+        ok = ok and _from_nbytes(g, ctor[0].args[2]) and _from_nbytes(g, al[0].value.args[1])
     ctx.check("R5", "_compute_external_data_info records the aligned offset and the tensor's nbytes", ok, g, g.node,
               "the recorded offset is not the result of _align_offset, or the length is not the tensor's byte size",
               how="data flow _align_offset → _ExternalDataInfo.offset; length = nbytes")
     h = repo.func("onnx_ir.external_data:_shard_tensors")
-    upd = [a for a in own_nodes(h.node) if isinstance(a, ast.Assign) and norm(a.targets[0]) == "shard_size" and not isinstance(a.value, ast.Constant)]
-    ok = len(upd) == 1 and norm(upd[0].value) == "offset + tensor.nbytes"
-    al = [a for a in own_nodes(h.node) if isinstance(a, ast.Assign) and norm(a.targets[0]) == "offset" and isinstance(a.value, ast.Call)
+    al = [a for a in own_nodes(h.node) if isinstance(a, ast.Assign) and isinstance(a.targets[0], ast.Name) and isinstance(a.value, ast.Call)
           and dotted_of(a.value.func) == "_align_offset"]
-    ok = ok and len(al) == 1
-    ctx.check("R5", "_shard_tensors: shard_size advances from the aligned offset", ok, h, upd[0] if upd else h.node,
+    ok = len(al) == 1
+    upd = []
+    if ok:
+        aligned = al[0].targets[0].id
+        # the running size: the one variable advanced from the aligned offset plus the tensor's byte size
+        upd = [a for a in own_nodes(h.node) if isinstance(a, ast.Assign) and isinstance(a.targets[0], ast.Name) and a.targets[0].id != aligned
+               and isinstance(a.value, ast.BinOp) and isinstance(a.value.op, ast.Add)
+               and any(isinstance(x, ast.Name) and x.id == aligned for x in ast.walk(a.value))
+               and any(isinstance(x, ast.Attribute) and x.attr == "nbytes" for x in ast.walk(a.value))]
+        ok = len(upd) == 1
+        if ok:
+            acc = upd[0].targets[0].id
+            first = al[0].value.args[0] if al[0].value.args else None
+            srcs = {acc}
+            for a in own_nodes(h.node):
+                if isinstance(a, ast.Assign) and isinstance(a.targets[0], ast.Name) and isinstance(a.value, ast.Name) and a.value.id == acc:
+                    srcs.add(a.targets[0].id)
+            ok = isinstance(first, ast.Name) and first.id in srcs
+    ctx.check("R5", "_shard_tensors: the shard size advances from the aligned offset", ok, h, upd[0] if upd else h.node,
               "the shard size accumulator ignores alignment padding: a shard can exceed the limit with several tensors",
-              how="accumulator = aligned offset + nbytes")
+              how="accumulator = aligned offset + nbytes; the alignment starts from the accumulator")
     a = repo.func("onnx_ir.external_data:_align_offset")
     rets = [r for r in own_nodes(a.node) if isinstance(r, ast.Return)]
-    ok = len(rets) == 3 and all(norm(r.value) == "current_offset" for r in rets[:2]) and norm(rets[-1].value).replace(" ", "") == \
-        "(current_offset+factor-1)//factor*factor"
+    x = a.params[0]
+    ok = bool(rets) and all((isinstance(r.value, ast.Name) and r.value.id == x) or _is_ceil_multiple(a, r.value, x) for r in rets) \
+        and any(_is_ceil_multiple(a, r.value, x) for r in rets)
     ctx.check("R5", "_align_offset rounds up to a multiple of the factor (or returns the offset unchanged)", ok, a, a.node,
               "the aligned offset can be smaller than the running offset (overlap) or not a multiple of the factor",
-              how="return expressions: identity or ceil-to-multiple")
+              how="return expressions: the offset itself or a ceil-to-multiple form of it")
+
+
+def _from_nbytes(f, e) -> bool:
+    """e is <x>.nbytes or a local assigned from it."""
+    if isinstance(e, ast.Attribute):
+        return e.attr == "nbytes"
+    if isinstance(e, ast.Name):
+        defs = [a.value for a in own_nodes(f.node) if isinstance(a, ast.Assign) and any(isinstance(t, ast.Name) and t.id == e.id for t in a.targets)]
+        return bool(defs) and all(isinstance(d, ast.Attribute) and d.attr == "nbytes" for d in defs)
+    return False
+
+
+def _is_ceil_multiple(f, e, x: str) -> bool:
+    """e rounds the name x up to a multiple of some K:  (x + K - 1) // K * K,  -(-x // K) * K,  x + (-x % K),
+    math.ceil(x / K) * K  (K any expression, the same in every position)."""
+    t = norm(e).replace(" ", "")
+    for n in ast.walk(e):
+        if isinstance(n, (ast.Name, ast.Call, ast.Attribute)):
+            k = norm(n).replace(" ", "")
+            if k == x or not k:
+                continue
+            forms = (f"({x}+{k}-1)//{k}*{k}", f"({x}+({k}-1))//{k}*{k}", f"({k}+{x}-1)//{k}*{k}", f"-(-{x}//{k})*{k}", f"{x}+-{x}%{k}", f"{x}+(-{x}%{k})",
+                     f"math.ceil({x}/{k})*{k}", f"{k}*(({x}+{k}-1)//{k})")
+            if t in forms:
+                return True
+    return False
 
 
 # (caller, callee) pairs that deliberately leave same-named options at their defaults - one reason each
